@@ -1,12 +1,14 @@
 import AFDriver.Wire
 import AFModel.Grid
 import AFModel.GridPhys
+import AFModel.GridComp
+import AFModel.FloatOps
 
 /-! Driver of the `Grid` model (property C16). Queries (`"q"`):
 `grid` (GridSearch.fit), `sens` (Sensitivity.run), `builder` (ResultBuilder), `steps`, `shape`. -/
 
 open Lean (Json)
-open AF.Wire AF.Grid
+open AF AF.Wire AF.Grid
 
 namespace AF.Driver.C16
 
@@ -168,6 +170,26 @@ def handleShape (j : Json) : Except String Json := do
     pure ((← pair[0]!.getNat?), (← pair[1]!.getNat?))
   pure (Json.mkObj [("sides", jList jNat (pairs.map fun p => sideOf cfg p.1 p.2))])
 
+/-- `cellcomp`: the composition of sampled cells (`mapper_from_partial_prior_arguments`): places, ids in
+parameter order, prior count and the instance built from a vector -/
+def handleCellComp (j : Json) : Except String Json := do
+  let parsed ← parseNode (← j.getObjVal? "comp")
+  let t := parsed.node
+  let gridIds ← natList j "grid_ids"
+  let cells ← (← getArr j "cells").toList.mapM fun c => do
+    let fresh ← natList c "fresh"
+    let v ← vecOfJson (← c.getObjVal? "v")
+    let job ← getNat c "job"
+    let ct := cellComp t gridIds fresh
+    pure (Json.mkObj [
+      ("paths", Json.arr ((paths ct).map jsonOfPath).toArray),
+      ("path_ids", jList (fun (x : Path × Nat) => jNat x.2) (pathPriors ct)),
+      ("ids", jList jNat (uniqueIds ct)),
+      ("count", jNat (count ct)),
+      ("inst", jsonOfInst (instFromVector floatOps ct v)),
+      ("sequential", jList jNat (freshIds ((getNat j "base").toOption.getD 0) gridIds.length job))])
+  pure (Json.mkObj [("count", jNat (count t)), ("cells", Json.arr cells.toArray)])
+
 end AF.Driver.C16
 
 namespace AF.Driver
@@ -179,6 +201,7 @@ def handleC16 (j : Json) : Except String Json := do
   | "builder" => C16.handleBuilder j
   | "steps" => C16.handleSteps j
   | "shape" => C16.handleShape j
+  | "cellcomp" => C16.handleCellComp j
   | s => throw s!"unknown query {s}"
 
 end AF.Driver
